@@ -54,7 +54,7 @@ COMPONENTS = {
     "model": ["afqmcsim.models.fock (Hamiltonian, exact diagonalisation, determinant amplitudes)"],
     "stub": ["mpi4py.MPI -> SimComm/SimWorld", "wall clock", "stdout", "Dice (dets.bin written by an independent writer)"],
 }
-REQUIRED_PROBES = {"quick": ["list_runs", "driver_runs", "non_aufbau_reference", "file_route", "exact_energy_checks"],
+REQUIRED_PROBES = {"quick": ["list_runs", "driver_runs", "non_aufbau_reference", "file_route", "exact_energy_checks", "spin_dependent_h1"],
                    "thorough": ["list_runs", "driver_runs", "non_aufbau_reference", "file_route", "pyscf_route", "exact_energy_checks", "fault_fired"]}
 
 
@@ -94,6 +94,9 @@ def gen_cfg(seed, index, tier):
     m["max_excitation"] = max_rank(m["norb"], m["nelec"]) + (rng.choice([0, 0, 1]) if m["kind"] == "lists" else 0)
     m["vector"] = rng.choice(["eigen0", "eigen0", "eigen1", "random"]) if m["kind"] == "lists" else "eigen0"
     m["jax_seed"] = rng.randrange(1, 2**20)
+    # spin-dependent one-body term (e.g. a Zeeman / pinning field): only with unrestricted walkers
+    # (restricted entry points see the spin average) and not on the pyscf route (spin-free solver)
+    m["spin_dep"] = m["wt"] == "unrestricted" and m["route"] != "pyscf" and rng.random() < 0.4
     if m["kind"] == "driver":
         faults = []
         if rng.random() < 0.4:
@@ -132,7 +135,7 @@ def write_dets_bin(path, dets, coeffs, norb):
 def build_problem(cfg):
     rs = np.random.RandomState(cfg["ham_seed"] % (2**32 - 1))
     norb, nelec = cfg["norb"], tuple(cfg["nelec"])
-    ham_data = lab.gen_hamiltonian(rs, norb, cfg["nchol"], strength=cfg["strength"], spin_dep=False)
+    ham_data = lab.gen_hamiltonian(rs, norb, cfg["nchol"], strength=cfg["strength"], spin_dep=cfg.get("spin_dep", False))
     sec = fock.Sector(norb, nelec)
     H = sec.hamiltonian(float(ham_data["h0"]), np.asarray(ham_data["h1"]), np.asarray(ham_data["chol"]))
     w, v = np.linalg.eigh(H)
@@ -275,6 +278,7 @@ def _exec_lists(cfg, ctx):
         dets, coeffs = lst
         trial, wave_data = trial_from_list(cfg, dets, coeffs, ctx)
     ctx.probe("list_runs", 1)
+    ctx.probe("spin_dependent_h1", cfg.get("spin_dep", False))
     ref = np.asarray(wave_data["ref_det"]).tolist()
     nonauf = not is_aufbau(ref, nelec)
     ctx.probe("non_aufbau_reference", nonauf)
@@ -305,7 +309,7 @@ def _exec_lists(cfg, ctx):
         ctx.count("exact_energy_checks", len(good))
     recs.append(arr_hash(ov_lib))
     return {"digest": arr_hash(ov_lib, np.array(ref)), "nontrivial": bool(nonauf),
-            "state_keys": [f"lists-{cfg['nelec']}-{cfg['route']}-{cfg['reference']}-{cfg['vector']}-x{cfg['max_excitation']}-{'nonauf' if nonauf else 'auf'}"],
+            "state_keys": [f"lists-{cfg['nelec']}-{cfg['route']}-{cfg['reference']}-{cfg['vector']}-x{cfg['max_excitation']}-{'nonauf' if nonauf else 'auf'}-sd{int(cfg.get('spin_dep', False))}"],
             "sim_steps": nw, "sim_time": 0.0,
             "sample": {"cfg": cfg, "ref_det": ref, "first_determinants": None if dets is None else [list(map(list, d)) for d in dets[:3]],
                        "first_coefficients": None if coeffs is None else coeffs[:3], "eigenvalue": e_exact, "overlap_walker0": str(complex(ov_lib[0]))}}
